@@ -496,6 +496,9 @@ def run(cmd, **kw):
     return subprocess.run(cmd, **kw)
 
 
+TRANSLATED_MAX_CHARS = 30000
+
+
 def run_model_and_translated(chk, model_mod, gen_mod, cases, broken, shard=300, cap=24000):
     """The cases against the hand-written model (Corr.<model_mod>.check_case) and, when the translation of the source builds, against
     the translated source run inside Coq as well (Corr.<gen_mod>.check_case_gen).  When a proof obligation broke (e.g. the translator
@@ -504,14 +507,18 @@ def run_model_and_translated(chk, model_mod, gen_mod, cases, broken, shard=300, 
     mism, translated = [], []
     try:
         if broken is None and chk.corr_buildable([f"Corr/{gen_mod}.vo"]):
-            both = run_cases(gen_mod, cases[:cap], shard=shard, check="check_case_gen")
-            chk.coverage["cases_also_run_on_the_translated_source"] = min(len(cases), cap)
+            # the translated _Buffer reads a word bit by bit with a list look-up per bit, as the source does: quadratic in the message
+            # length.  Cases whose text is beyond TRANSLATED_MAX_CHARS (messages of tens of kilobytes) run on the model only.
+            small = [i for i, c in enumerate(cases) if len(c) <= TRANSLATED_MAX_CHARS][:cap]
+            rest = sorted(set(range(len(cases))) - set(small))
+            both = [small[j] for j in run_cases(gen_mod, [cases[i] for i in small], shard=shard, check="check_case_gen")]
+            chk.coverage["cases_also_run_on_the_translated_source"] = len(small)
             if both:
                 again = run_cases(model_mod, [cases[i] for i in both], shard=shard)
                 mism = [both[j] for j in again]
                 translated = [i for i in both if i not in set(mism)]
-            if len(cases) > cap:
-                mism += [cap + i for i in run_cases(model_mod, cases[cap:], shard=shard)]
+            if rest:
+                mism = sorted(mism + [rest[j] for j in run_cases(model_mod, [cases[i] for i in rest], shard=shard)])
         elif broken is None or chk.corr_buildable([f"Corr/{model_mod}.vo"]):
             mism = run_cases(model_mod, cases, shard=shard)
     except CoqError as e:
